@@ -175,13 +175,32 @@ class RunEnv:
         kw = {}
         if rng_via == "ctor" and sampler_name != "EmceeSMC":
             kw["rng"] = self.rng
+        params = [f"p{k}" for k in range(self.d)]
+        if self.cfg.get("precond") == "logit":
+            # the real bounded-to-unbounded preconditioning (symbolic bounds);
+            # the initial draws are assumed inside the bounds, outside the margin
+            import aspire.transforms as T
+
+            lo, hi = sx.sym("plo", self.d), sx.sym("phi", self.d)
+            for a, b in zip(sx.terms(lo), sx.terms(hi)):
+                self.ctx.add_assume(a < b)
+            self.bounds = (lo, hi)
+            kw["preconditioning_transform"] = T.CompositeTransform(
+                parameters=params,
+                prior_bounds={p: [lo[k], hi[k]] for k, p in enumerate(params)},
+                bounded_to_unbounded=True,
+                bounded_transform="logit",
+                affine_transform=False,
+                xp=sx,
+            )
+            self.flow.on_draw = self._assume_inside
         self.sampler = S(
             log_likelihood=self.target.log_likelihood,
             log_prior=self.target.log_prior,
             dims=self.d,
             prior_flow=self.flow,
             xp=sx,
-            parameters=[f"p{k}" for k in range(self.d)],
+            parameters=params,
             **kw,
         )
         if sampler_name == "EmceeSMC":
@@ -189,6 +208,15 @@ class RunEnv:
         self.sampler_name = sampler_name
         self.rng_via = rng_via
         return self.sampler
+
+    def _assume_inside(self, x):
+        lo, hi = self.bounds
+        L, H = sx.terms(lo), sx.terms(hi)
+        eps = 1e-6
+        for i in range(x.shape[0]):
+            for k, t in enumerate(sx.terms(x[i])):
+                w = H[k] - L[k]
+                self.ctx.add_assume(z3.And(t >= L[k] + core.rv(eps) * w, t <= L[k] + core.rv(1.0 - eps) * w))
 
     def sample_kwargs(self):
         cfg = self.cfg
